@@ -235,7 +235,11 @@ def run(ctx):
             ctx.count(key=("trunc", cut), branch="fault:" + impl.split(" ")[0])
             if impl != "data:Format":
                 ctx.violation("C16:fault:truncated:%s" % impl.split(" ")[0], "workbook truncated at %d -> %s" % (cut, impl), {"cut": cut})
-        for name, data in (("csv-as-xlsx", b"a,b\n1,2\n"), ("empty", b"")):
+        eocd = blob[blob.rfind(b"PK\x05\x06"):]
+        cd_at = blob.rfind(b"PK\x01\x02")
+        for name, data in (("csv-as-xlsx", b"a,b\n1,2\n"), ("empty", b""), ("text-with-zip-tail", b"a,b\n1,2\n" + eocd),
+                           ("central-directory-overwritten", blob[:cd_at] + b"\x00" * 46 + blob[cd_at + 46:]),
+                           ("middle-missing", blob[:len(blob) // 3] + blob[len(blob) // 2:])):
             path = os.path.join(tmp, "bad.xlsx")
             with open(path, "wb") as f:
                 f.write(data)
